@@ -16,17 +16,21 @@ PROPS = {
             "IllegalTruncation", "WorkDecreased", "ExtensionAdoptedInFull", "HeavierBranchAdoptedInFull",
             "HandlerPanicked"],
     "C19": ["DisconnectEvents", "ConnectEvents", "EventOrder", "BacklogExact", "BacklogAtEvent"],
+    # multi-store crash points (used by the C08 check of the HeaderStore family)
+    "C08": ["CrashRecoverOpens", "CrashChainIntact", "CrashFilterConsistent"],
 }
 CODE_VERSION = json.load(open(os.path.join(SPEC, "code_version.json")))
 CONFIGS = {
-    "quick": [dict(universe="u1", MaxMsgs=3, MaxRestarts=0, MaxFaults=0)],
-    "thorough": [dict(universe="u1", MaxMsgs=3, MaxRestarts=1, MaxFaults=1),
-                 dict(universe="deep", MaxMsgs=3, MaxRestarts=1, MaxFaults=0),
-                 dict(universe="retarget", MaxMsgs=3, MaxRestarts=1, MaxFaults=0),
-                 dict(universe="quick", MaxMsgs=4, MaxRestarts=1, MaxFaults=0)],
-    "deep": [dict(universe="deep", MaxMsgs=3, MaxRestarts=0, MaxFaults=0)],
-    "retarget": [dict(universe="retarget", MaxMsgs=3, MaxRestarts=0, MaxFaults=0)],
-    "faults": [dict(universe="u1", MaxMsgs=3, MaxRestarts=0, MaxFaults=1)],
+    "quick": [dict(universe="u1", MaxMsgs=3, MaxRestarts=0, MaxFaults=0, MaxCrashes=0)],
+    "thorough": [dict(universe="u1", MaxMsgs=3, MaxRestarts=1, MaxFaults=1, MaxCrashes=0),
+                 dict(universe="deep", MaxMsgs=3, MaxRestarts=1, MaxFaults=0, MaxCrashes=0),
+                 dict(universe="retarget", MaxMsgs=3, MaxRestarts=1, MaxFaults=0, MaxCrashes=0),
+                 dict(universe="quick", MaxMsgs=4, MaxRestarts=1, MaxFaults=0, MaxCrashes=0)],
+    "deep": [dict(universe="deep", MaxMsgs=3, MaxRestarts=0, MaxFaults=0, MaxCrashes=0)],
+    "retarget": [dict(universe="retarget", MaxMsgs=3, MaxRestarts=0, MaxFaults=0, MaxCrashes=0)],
+    "crash": [dict(universe="u1", MaxMsgs=2, MaxRestarts=0, MaxFaults=0, MaxCrashes=1)],
+    "crash3": [dict(universe="u1", MaxMsgs=3, MaxRestarts=0, MaxFaults=0, MaxCrashes=1)],
+    "faults": [dict(universe="u1", MaxMsgs=3, MaxRestarts=0, MaxFaults=1, MaxCrashes=0)],
 }
 _COMMON_NOTE = ("Bounded: header universe of 10 (quick) / 13 (thorough) headers incl. forks below/at/above a checkpoint, "
                 "tie / heavier-by-one branches, an invalid header with a valid child; 2 peers; every connected batch of <= 3 "
@@ -84,6 +88,8 @@ def label(a):
                 tag = ";xcp"
         if a.get("k") == 1:
             tag += ";writefails"
+        if a.get("k", 0) >= 10:
+            tag += ";crash-after-%d-store-calls" % (a["k"] - 10)
         s += "(p%d,%s%s)" % (a["p"], "-".join(str(x) for x in b), tag)
     elif s == "Inv":
         s += "(p%d,%s)" % (a["p"], a["batch"][0] if a["batch"] else "")
@@ -165,7 +171,7 @@ def run(prop_id, tier, seed, replay=None):
     try:
         if replay:
             rd = json.load(open(replay))
-            cfgs = [dict(universe=rd.get("universe", "u1"), MaxMsgs=1, MaxRestarts=0, MaxFaults=0)]
+            cfgs = [dict(universe=rd.get("universe", "u1"), MaxMsgs=1, MaxRestarts=0, MaxFaults=0, MaxCrashes=0)]
         else:
             cfgs = CONFIGS[tier]
             if tier == "quick" and prop_id in ("C01", "C02"):
